@@ -286,7 +286,7 @@ COMPONENTS = [
     _comp("c02_read_wakes", "vsock_read"),
     _comp("c02_eof_wakes", "vsock_eof"),
     _comp("c02_zero_window_waker", "vsock_zwnd"),
-    _comp("c02_timer_ok", "vsock_timer"),
+    _comp("c02_timer_ok_g", "vsock_timer"),
     _comp("c02_rto_armed", "vsock_rto"),
     _comp("c02_no_silent_stall", "vsock_stall", gen),
     _comp("c02_prompt", "vsock_prompt"),
